@@ -1,7 +1,7 @@
 CONSTANT Proto <- EnvProto
 CONSTANT Dirs <- EnvDirs
 CONSTANT Docs <- D1
-CONSTANT MaxEdits = 3
+CONSTANT MaxEdits = 2
 CONSTANT MaxStops = 1
 CONSTANT MaxReruns = 1
 CONSTANT MaxSteps = 1000
@@ -14,7 +14,7 @@ CONSTANT InitPool <- MCPool
 CONSTANT TrackHist = FALSE
 SPECIFICATION Spec
 VIEW view
-INVARIANT ConvergedModSwap
+INVARIANT ConvergedModDev
 INVARIANT SingleWinner
 INVARIANT IdempotentRerun
 INVARIANT TypeOK
@@ -22,4 +22,5 @@ INVARIANT CurIsWinner
 INVARIANT CkptSafe
 INVARIANT SeqBound
 INVARIANT PoolNotExhausted
+INVARIANT NotStarved
 CHECK_DEADLOCK FALSE
